@@ -40,7 +40,7 @@ META = {
                 'D2 value vocabularies (direction, access) round-trip',
                 'D3 per-complete-type emission and counter/signature '
                 'pairing; parse state is per parse (no class-level container)',
-                'D5 every change of the member tables drops the cached XML', 'D4 known-interface reuse polarity'],
+                'D5 every change of the member tables drops the cached XML; the assembled answer is not kept by the call handler', 'D4 known-interface reuse polarity'],
     'undecided': ['equality of declared and recovered interfaces for '
                   'arbitrary signatures'],
 }
@@ -74,6 +74,62 @@ def string_templates(fnode):
                 walk(ch, ctxstack)
     walk(fnode, [])
     return out
+
+
+def answers_not_cached(ctx):
+    """The text an interface contributes is cached in its `_xml` slot and
+    dropped by every add* / del* (D5).  A SECOND cache further up - the call
+    handler keeping the assembled Introspect answer per path - is reset by
+    nothing when an interface of an exported object changes: the stale text
+    keeps being served.  The generated document must not be stored on the
+    handler."""
+    prog = ctx.prog
+    n = 0
+    for fi in prog.all_funcs.values():
+        if fi.module.name != 'objects':
+            continue
+        held = set()
+        for node in prog._iter_scope(fi.node):
+            if isinstance(node, ast.Assign) and \
+                    isinstance(node.value, ast.Call) and \
+                    isinstance(node.value.func, (ast.Attribute, ast.Name)) \
+                    and (getattr(node.value.func, 'attr', None) or
+                         getattr(node.value.func, 'id', '')) == \
+                    'generateIntrospectionXML':
+                held.update(t.id for t in node.targets
+                            if isinstance(t, ast.Name))
+        if not held:
+            continue
+        n += 1
+        kept = []
+        for node in prog._iter_scope(fi.node):
+            if isinstance(node, ast.Assign):
+                v = node.value
+                if isinstance(v, ast.Name) and v.id in held:
+                    for t in node.targets:
+                        base = t.value if isinstance(t, ast.Subscript) else t
+                        if isinstance(base, ast.Attribute) and \
+                                isinstance(base.value, ast.Name) and \
+                                base.value.id == 'self':
+                            kept.append('%s (line %d)' % (ast.unparse(t),
+                                                          node.lineno))
+            if isinstance(node, ast.Call) and \
+                    isinstance(node.func, ast.Attribute) and \
+                    node.func.attr in ('setdefault', 'update', 'append') and \
+                    isinstance(node.func.value, ast.Attribute) and \
+                    isinstance(node.func.value.value, ast.Name) and \
+                    node.func.value.value.id == 'self' and any(
+                        isinstance(a, ast.Name) and a.id in held
+                        for a in node.args):
+                kept.append('%s (line %d)' % (ast.unparse(node)[:40],
+                                              node.lineno))
+        ctx.ob('C15.D5', fi.qualname, 'answer-not-kept-by-the-handler',
+               not kept, 'the generated introspection document is stored in '
+               '%s: nothing resets that copy when an interface of an exported '
+               'object gains or loses a member, so later Introspect calls '
+               'are answered with the old declaration' % kept[:2])
+    if n == 0:
+        raise AnalysisError('objects.py never calls generateIntrospectionXML')
 
 
 def run(ctx):
@@ -346,6 +402,7 @@ def run(ctx):
         'the interfaces parsed from one XML document include those of '
         'every document parsed before')
     cache_invalidation(ctx)
+    answers_not_cached(ctx)
     ctx.floor('C15.D5', 4)
     ctx.floor('C15.D1', 8)
     ctx.floor('C15.D2', 4)
